@@ -49,6 +49,8 @@ type specCtx struct {
 	letExprs  map[string]ast.Expr
 	letBusy   map[string]bool
 	addrVars  map[string]PtrV
+	head      *headSnap
+	envOver   map[string]envEntry // when set, replaces the frame's variable environment
 }
 
 func (x *Exec) specCtxFor(st *State, fr *Frame, pre *preSnap) *specCtx {
@@ -220,7 +222,16 @@ func (sc *specCtx) lookupVar(name string) (Value, bool) {
 		delete(sc.letBusy, name)
 		return v, true
 	}
-	if sc.frame != nil {
+	if sc.envOver != nil {
+		if ent, ok := sc.envOver[name]; ok {
+			if ent.isAddr {
+				if p, ok := ent.v.(PtrV); ok {
+					return sc.load(p), true
+				}
+			}
+			return ent.v, true
+		}
+	} else if sc.frame != nil {
 		if ent, ok := sc.frame.env[name]; ok {
 			if ent.isAddr {
 				if p, ok := ent.v.(PtrV); ok {
@@ -590,6 +601,15 @@ func (x *Exec) evalSpecCall2(sc *specCtx, e *ast.CallExpr) Value {
 			o.vars[k] = v
 		}
 		return x.evalSpec(&o, e.Args[0])
+	case "at_head":
+		need(1)
+		if sc.head == nil {
+			panic(engineErr("at_head outside an iteration clause"))
+		}
+		o := *sc
+		o.heap = sc.head.heap
+		o.envOver = sc.head.env
+		return x.evalSpec(&o, e.Args[0])
 	case "implies":
 		need(2)
 		return Scalar{implies(x.evalBool(sc, e.Args[0]), x.evalBool(sc, e.Args[1])), boolT}
@@ -756,6 +776,9 @@ func (x *Exec) evalSpecCall2(sc *specCtx, e *ast.CallExpr) Value {
 		iv := arg(0).(IfaceV)
 		tv := arg(1).(TypeV)
 		return x.unbox(sc.st, iv, tv.T)
+	case "ifacekey":
+		need(1)
+		return Scalar{x.keyTerm(sc.st, arg(0)), types.Typ[types.Int]}
 	case "now":
 		if v, ok := sc.st.lets["$now"]; ok {
 			return v
@@ -1226,6 +1249,13 @@ func (x *Exec) resolveItems(sc *specCtx, items []string) []frameItem {
 				}
 				b := p.Base
 				addField(p.Root, p.Path, &b)
+			case "mapsof":
+				// every map of the same type as the argument
+				m, ok := x.evalSpec(sc, e.Args[0]).(Scalar)
+				if !ok {
+					panic(engineErr("modifies %s: not a map", it))
+				}
+				addMap(m.Typ.Underlying().(*types.Map), nil)
 			case "mapof":
 				m, ok := x.evalSpec(sc, e.Args[0]).(Scalar)
 				if !ok {
